@@ -624,6 +624,14 @@ func Fidelity(bins *Bins, w *World, args []string) string {
 	if so.Res.Exit != rexit {
 		return fmt.Sprintf("exit differs: sim=%d real=%d (sim stderr %q, real stderr %q)", so.Res.Exit, rexit, clip(so.Stderr), clip(re.Bytes()))
 	}
+	// what was written is compared - unless both runs failed: a run that fails while it writes leaves the outputs written so far, and the
+	// untouched binary writes them in Go's map order (the simulated one in sorted order unless told otherwise): which
+	// subset exists then is the program's own randomness, not a difference between the two builds (thorough tier, seed
+	// 51: a world whose nested mapped output cannot be created fails after the default output was written - in half the
+	// processes)
+	if so.Res.Exit != 0 && rexit != 0 {
+		return ""
+	}
 	if !bytes.Equal(so.Stdout, ro.Bytes()) {
 		return "stdout differs"
 	}
